@@ -78,16 +78,18 @@ func goEnv() []string {
 // build compiles the engine's test binary from the current /repo tree.
 func build(engine, tmp string) (string, error) {
 	out := filepath.Join(tmp, engine+".test")
-	args := []string{"test", "-c", "-tags", "verif", "-o", out}
+	// both engines are built over the yieldgen overlay: the sched engine drives its scheduling points,
+	// the world engine uses the statement-level ones for pre-emption faults (tag verifpause installs the hook)
+	args := []string{"test", "-c", "-tags", "verif verifpause", "-o", out}
 	pkg := "./world"
 	if engine == "sched" {
 		pkg = "./sched"
-		overlay, err := makeOverlay(tmp)
-		if err != nil {
-			return "", fmt.Errorf("yieldgen: %w", err)
-		}
-		args = append(args, "-overlay", overlay)
 	}
+	overlay, err := makeOverlay(tmp)
+	if err != nil {
+		return "", fmt.Errorf("yieldgen: %w", err)
+	}
+	args = append(args, "-overlay", overlay)
 	if alt := os.Getenv("VERIF_REPO"); alt != "" {
 		// sensitivity evaluation only: build against a patched copy of the repository instead of /repo
 		mod, err := os.ReadFile(filepath.Join(srcDir, "sim", "go.mod"))
@@ -448,6 +450,20 @@ func main() {
 			}
 		}
 		fmt.Println("build cache warm")
+		return
+	case "overlay":
+		// developer aid: write the yieldgen overlay into a directory and print the path of overlay.json
+		dir := "/tmp/verif-overlay"
+		if len(os.Args) > 2 {
+			dir = os.Args[2]
+		}
+		os.MkdirAll(dir, 0o755)
+		path, err := makeOverlay(dir)
+		if err != nil {
+			fmt.Println(err)
+			os.Exit(exitUnwell)
+		}
+		fmt.Println(path)
 		return
 	case "list":
 		for _, id := range allProps() {
